@@ -37,6 +37,7 @@ From Galaxy.Base Require Import Strs.
 From Galaxy.Model Require Import Nets Pool Ipam Plugin.
 From Galaxy.Model Require Keys.
 From Galaxy.Proofs Require Import IpamP PluginInv PluginP PluginWitness.
+From Galaxy.Proofs Require Import PluginStickyP PluginRoundsP.
 Local Open Scope N_scope.
 
 (** (a) each IP has at most one owner: the allocation table [i_alloc] is a finite MAP from IP to one
@@ -83,3 +84,42 @@ Theorem live_pods_disjoint_refuted_late_event_old : ∃ nodes ops, wf_hist (worl
     x ∈ pd_ips p ∧ x ∈ pd_ips q.
 Proof. exact live_pods_disjoint_refuted_late_event. Qed.
 Print Assumptions live_pods_disjoint_refuted_late_event_old.
+
+(** ** resync passes by keys without a pod (Proofs/PluginRoundsP.v; twin of the run-time monitor of the scenario
+    pool-name-with-underscore)
+
+    ANY world (no invariant needed), any oracles and faults: when ParseKey of the key stored for [ip] yields an empty pod
+    name or an empty app name - a pool reserve "pool__p_", an app reserve "dp_ns_app_", or a key that does not split into
+    exactly four '_'-separated fields - [resync_skip] is true and the resync item of [ip] changes nothing and answers SOk:
+    the entry is neither unassigned, nor cleared, nor released, nor re-keyed. *)
+Theorem resync_passes_by_keys_without_a_pod : ∀ w ip o ocl fl e,
+  i_alloc (w_ipam w) !! ip = Some e →
+  Keys.ko_pod (Keys.parse_key (e_key e)) = [] ∨ Keys.ko_app (Keys.parse_key (e_key e)) = [] →
+  resync_skip e (Keys.parse_key (e_key e)) = true ∧ resync_section w ip o ocl fl = (w, SOk).
+Proof. exact resync_passes_by_keys_without_a_pod_l. Qed.
+Print Assumptions resync_passes_by_keys_without_a_pod.
+
+(** in particular the key of a deployment pod whose pool annotation contains '_' (pool "team_a", deployment ns1/api, pod
+    api-7f9c6d-w1; such an annotation is excluded by [wf_pod], the Go code accepts it): ParseKey cuts the pool name at
+    its first '_' ("team") and is left with five fields, so it returns neither pod nor app name - every entry stored
+    under this key is skipped by the resync passes, also while no pod with the stored UID runs *)
+Example underscore_pool_key_is_skipped :
+  us_pool_key = L "pool__team_a_dp_ns1_api_api-7f9c6d-w1" ∧
+  Keys.ko_pod (Keys.parse_key us_pool_key) = [] ∧ Keys.ko_app (Keys.parse_key us_pool_key) = [] ∧
+  Keys.ko_pool (Keys.parse_key us_pool_key) = L "team" ∧
+  ∀ e, e_key e = us_pool_key → resync_skip e (Keys.parse_key (e_key e)) = true.
+Proof. split; [reflexivity|]. destruct us_pool_key_parse as (H1 & H2 & H3). split_and!; [done..|exact us_pool_key_skipped]. Qed.
+Print Assumptions underscore_pool_key_is_skipped.
+
+(** non-vacuity on a concrete world ([us_pool_world]: pools of [ex_conf2], 10.100.0.3 allocated under that key for uid
+    u9 on node1, and no pod object with that uid anywhere): the entry is skipped although [pod_running] is false for it,
+    and the resync item of the address, with any oracles and faults, leaves the world as it is *)
+Example resync_passes_by_nonvacuous :
+  let w := us_pool_world in let x := ip4 10 100 0 3 in
+  WInv w ∧
+  (∃ e, i_alloc (w_ipam w) !! x = Some e ∧ e_key e = us_pool_key ∧ e_uid e = L "u9" ∧ e_node e = L "node1" ∧
+        Keys.ko_pod (Keys.parse_key (e_key e)) = [] ∧ resync_skip e (Keys.parse_key (e_key e)) = true ∧
+        pod_running w (Keys.ko_ns (Keys.parse_key (e_key e))) (Keys.ko_pod (Keys.parse_key (e_key e))) (e_uid e) = false) ∧
+  ∀ o ocl fl, resync_section w x o ocl fl = (w, SOk).
+Proof. exact ex_resync_skips_us_pool_l. Qed.
+Print Assumptions resync_passes_by_nonvacuous.
